@@ -23,7 +23,10 @@ class TxnAreaCheck(TieCheck):
     def gen(self, tier):
         return run_syncgen()
 
+    run_tier = None
+
     def run(self, tier, seed, replay=None):
+        self.run_tier = tier
         with lib.Lock("area.Txn.run"):
             return super().run(tier, seed, replay)
 
@@ -37,12 +40,22 @@ class C04(TxnAreaCheck):
         "model: coq/Txn/TxnSeq.v (lifecycle of Txn / Updates / View / single-operation helpers over an ABSTRACT sequential map semantics); "
         "spec checker: coq/Txn/TxnCorr.v spec_ok (published = fold of committed transactions, read-your-writes), written independently of the model",
         "tie A: harness/cmd/syncgen (go/ast + go/types) regenerates coq/Txn/GenSync.v; the Examples skeleton_*_ok / sync_sites_ok in Props_C04.v compare it with coq/Txn/Skeleton.v",
+        "SAMPLED, NOT PROVED: the commit-race stream (requests racing with a writer that commits multi-method transactions; every distinct answer must be "
+        "the answer of one committed state, TxnCorr.req_model_agrees / req_spec_ok) exercises only the schedules the Go runtime produces during a few seconds",
         "the routing tree's map behaviour itself (Handle/Update/Delete/Truncate on a private root) is C02's subject; here it is a parameter, instantiated by the reference map in the harness comparison",
     ]
     assumptions = [
         "a Txn value is used by one goroutine at a time (documented requirement of fox); concurrent readers/writers are C05",
         "patterns used by the harness cannot conflict, so the reference map keyed by (method, pattern) is the exact oracle",
     ]
+
+    def harness_args(self, tier):
+        # TieCheck.run asks for the "thorough" generators in two situations: a thorough run, and the fallback
+        # search of a QUICK run in which an obligation broke (e.g. tie A) while no generated input failed.
+        # The second must stay within minutes: the harness has a bounded "search" size for it.
+        if tier == "thorough" and self.run_tier == "quick":
+            return ["tier=search"]
+        return ["tier=" + tier]
 
     def extra(self, tier, seed, work, coverage):
         """A fatal runtime error of the harness (e.g. 'sync: unlock of unlocked mutex') kills the process:
